@@ -41,7 +41,7 @@ def _eval(task):
 def ast_info(st):
     """structural predicates over the AST used to attribute a disagreement to a triaged finding class"""
     info = {"dup_names_in_setop": False, "star_over_sub_and_base": False, "star_beside_named_over_star_sub": False,
-            "join_inside_derived_under_join": False, "unq_multi_levels": 0}
+            "join_inside_derived_under_join": False, "unq_multi_levels": 0, "star_over_relations_sharing_a_name": False}
 
     def names_of(sel):
         return [it["alias"] or (it["e"][2] if it["e"][0] == "col" else None) for it in sel["items"]]
@@ -65,6 +65,10 @@ def ast_info(st):
                 info["join_inside_derived_under_join"] = True
             if len(rels) > 1 and any(_has_unq(it["e"]) for it in sel["items"]):
                 info["unq_multi_levels"] += 1
+            if "star" in kinds and len(rels) > 1:
+                exposed = [n for r in rels if r["k"] == "derived" for n in (sqlgen.out_names(r["q"]) or []) if n]
+                if len(exposed) != len(set(exposed)):
+                    info["star_over_relations_sharing_a_name"] = True
 
     sqlgen.walk_queries(st, q)
     if st["kind"] == "update" and st.get("from") and len(st["from"]["rels"]) > 1:
@@ -92,6 +96,8 @@ def classify(st, dialect, res):
     if dialect == "tsql" and ("kind:update" in f or "kind:merge" in f) and miss and not extra and not res["obs"]["pairs"]:
         return "F-C09-tsql-update-merge-without-column-lineage"
     local = set(sqlgen.local_names(st))
+    if info["star_over_relations_sharing_a_name"] and miss and not extra:
+        return "F-C11-star-over-tables-sharing-a-column-name"
     if info["dup_names_in_setop"]:
         return "F-C02-duplicate-output-names-in-set-operation"
     if info["star_beside_named_over_star_sub"]:
@@ -125,9 +131,9 @@ def run(tier: str, opts: dict) -> int:
         dialects = opts["dialects"].split(",")
     C = sqlgen.CENTRES
     if tier == "quick":
-        plan = [("simple", C["simple"], D), ("join", C["join"], 2), ("derived", C["derived"], 1), ("cte", C["cte"], 1)]
+        plan = [("simple", C["simple"], D), ("join", C["join"], 2), ("derived", C["derived"], 1), ("cte", C["cte"], 1), ("star", C["star"], 1)]
     else:
-        plan = [("simple", C["simple"], D), ("join", C["join"], 3), ("derived", C["derived"], 2), ("cte", C["cte"], 2)]
+        plan = [("simple", C["simple"], D), ("join", C["join"], 3), ("derived", C["derived"], 2), ("cte", C["cte"], 2), ("star", C["star"], 2)]
     if "centres" in opts:
         plan = [p for p in plan if p[0] in opts["centres"].split(",")]
     cases, n_exec = enumerate_plan(plan, depth)
